@@ -51,10 +51,13 @@ unsigned int E131DiscoveryInflator::InflatePDUBlock(HeaderSet *headers,
 
   DiscoveryPage page(header.page_number, header.last_page);
 
-  for (const uint8_t *ptr = data + sizeof(header); ptr != data + len;
-       ptr += 2) {
-    uint16_t universe;
-    memcpy(reinterpret_cast<uint8_t*>(&universe), ptr, sizeof(universe));
+  // A trailing odd byte can't hold a universe, so ignore it rather than
+  // walking past the end of the PDU.
+  uint16_t universe;
+  for (unsigned int offset = sizeof(header);
+       offset + sizeof(universe) <= len; offset += sizeof(universe)) {
+    memcpy(reinterpret_cast<uint8_t*>(&universe), data + offset,
+           sizeof(universe));
     page.universes.push_back(ola::network::NetworkToHost(universe));
   }
   m_page_callback->Run(*headers, page);
